@@ -112,8 +112,8 @@ mod verif_l4_line {
     }
     /// -M list: concrete contents (a symbolic Vec under slice::contains does not finish in CBMC);
     /// the list only guards an error!() log statement.
-    fn any_log_list() -> Option<Vec<u32>> {
-        if kani::any() { Some(vec![4u32, 17]) } else { None }
+    fn log_list(on: bool) -> Option<Vec<u32>> {
+        if on { Some(vec![4u32, 17]) } else { None }
     }
     fn any_filter() -> Option<Vec<u32>> {
         if kani::any() { Some(vec![kani::any(), kani::any()]) } else { None }
@@ -139,7 +139,7 @@ mod verif_l4_line {
     #[kani::stub(crate::decoder::planes::Planes::cleanup, rec_cleanup)]
     #[kani::stub(crate::reader::display_planes, rec_display)]
     fn l4_line_rejected() {
-        let args = mk_args(kani::any(), any_filter(), any_log_list(), kani::any(), 60, kani::any(), kani::any());
+        let args = mk_args(kani::any(), any_filter(), log_list(true), kani::any(), 60, kani::any(), kani::any());
         let mut t = empty_table();
         let mut st = counters();
         let flags = DisplayFlags { bits: kani::any() };
@@ -153,9 +153,9 @@ mod verif_l4_line {
         kani::cover!(true, "reach_end");
     }
 
-    fn accepted(n28: bool) {
+    fn accepted(n28: bool, log_on: bool) {
         let count_df: bool = kani::any();
-        let args = mk_args(count_df, any_filter(), any_log_list(), kani::any(), kani::any(), kani::any(), kani::any());
+        let args = mk_args(count_df, any_filter(), log_list(log_on), kani::any(), kani::any(), kani::any(), kani::any());
         let mut t = empty_table();
         let mut st = counters();
         let flags = DisplayFlags { bits: kani::any() };
@@ -199,7 +199,7 @@ mod verif_l4_line {
     }
 
     //@ob id=L4.line.accepted.14 flags=noassert props=C03,C12,C16,C19,C01 tier=quick kind=harness fns=reader.rs:read_lines(loop-body)
-    //@region one loop iteration for an accepted 56-bit frame (any DF<=15 frame get_message can return), every -f set of two, -c, -M off / a fixed list, every -u, -d, -R, -U, every display flag set: zero address or DF outside -f -> nothing happens; otherwise count (iff -c) -> update_aircraft(frame, df, address) -> cleanup(now, delete_after), each once, in this order
+    //@region one loop iteration for an accepted 56-bit frame (any DF<=15 frame get_message can return), every -f set of two, -c, -M list [4,17] (14) / off (28), every -u, -d, -R, -U, every display flag set: zero address or DF outside -f -> nothing happens; otherwise count (iff -c) -> update_aircraft(frame, df, address) -> cleanup(now, delete_after), each once, in this order
     #[kani::proof]
     #[kani::unwind(34)]
     #[kani::stub(chrono::Utc::now, now_rec)]
@@ -211,7 +211,7 @@ mod verif_l4_line {
     #[kani::stub(crate::decoder::planes::Planes::cleanup, rec_cleanup)]
     #[kani::stub(crate::reader::display_planes, rec_display)]
     fn l4_line_accepted_14() {
-        accepted(false);
+        accepted(false, true);
     }
 
     //@ob id=L4.line.accepted.28 flags=noassert props=C03,C12,C16,C19,C01 tier=quick kind=harness fns=reader.rs:read_lines(loop-body)
@@ -227,6 +227,6 @@ mod verif_l4_line {
     #[kani::stub(crate::decoder::planes::Planes::cleanup, rec_cleanup)]
     #[kani::stub(crate::reader::display_planes, rec_display)]
     fn l4_line_accepted_28() {
-        accepted(true);
+        accepted(true, false);
     }
 }
